@@ -56,7 +56,7 @@ func (g *c08Gen) guarded(e *sx.N) *sx.N {
 func (g *c08Gen) pkgRef() string { return fw.Pick(g.r, g.pkgs) }
 
 func (g *c08Gen) stmt() *sx.N {
-	k := g.r.Intn(22)
+	k := g.r.Intn(24)
 	name := fw.Pick(g.r, c08Names)
 	val := sx.I(int64(g.r.Intn(100)))
 	add := func(kind string) { g.kinds = append(g.kinds, kind) }
@@ -128,6 +128,17 @@ func (g *c08Gen) stmt() *sx.N {
 			return g.probe("call", g.guarded(sx.Call(target)))
 		}
 		return g.probe("call", g.guarded(sx.Call(target, val)))
+	case k == 22:
+		// a function that FAILS when called, in a non-final or in its final body form;
+		// calls are guarded, so evaluation continues in the caller's package
+		add("defun-failing")
+		if g.r.Bool() {
+			return sx.Call("defun", sx.Y(name), sx.L(sx.Y("&rest"), sx.Y("xs")), sx.Call("car", sx.I(5)), sx.Call("set", sx.QY(fw.Pick(g.r, c08Names)), sx.I(-1)), sx.QY("unreached"))
+		}
+		return sx.Call("defun", sx.Y(name), sx.L(sx.Y("&rest"), sx.Y("xs")), sx.Y("xs"), sx.Call("car", sx.I(5)))
+	case k == 23:
+		add("defmacro-failing")
+		return sx.Call("defmacro", sx.Y(name), sx.L(sx.Y("&rest"), sx.Y("xs")), sx.Call("car", sx.I(5)), sx.I(1))
 	case k == 20:
 		if g.depth < 3 {
 			add("load-string")
